@@ -55,6 +55,7 @@ func VerifC19ExistsTxOutpoint() {
 	q := wire.OutPoint{Hash: T.Hash, Index: rt.NondetU32()}
 	if rt.NondetBool() {
 		q.Hash = vHash()
+		rt.Assume(q.Hash != T.Hash) // another transaction's id (the id itself is the other branch)
 	}
 	var mtx *wire.MsgTx
 	var meta *BlockMeta
